@@ -3,8 +3,8 @@
 import json, os, sys
 ROOT = os.path.dirname(os.path.abspath(__file__))
 sys.path.insert(0, ROOT)
-from campaigns import CAMPAIGNS
-from manifest_meta import META, NOT_APPLICABLE, HOOK_COMMITS, NOTES
+from campaigns import CAMPAIGNS, METAS as META
+from manifest_meta import NOT_APPLICABLE, HOOK_COMMITS, NOTES
 
 base = json.load(open("/root/.vp/BASELINE.json")) if os.path.exists("/root/.vp/BASELINE.json") else {"cmd": ""}
 checks = []
